@@ -170,6 +170,34 @@ class Check:
             self.violations.append((p, "no-failing-input-found"))
         return ok
 
+    def source_facts(self):
+        """regenerated tie: constants of the source that the model was written against (bin/consts_expected.json),
+        re-extracted from the tree under test by harness/cmd/consts (go/parser)"""
+        exp_all = json.load(open(os.path.join(VERIF, "bin", "consts_expected.json")))
+        exp = exp_all.get(self.id)
+        if not exp:
+            return True
+        binp = os.path.join(self.work, "consts")
+        r = run(["go", "build", "-modfile", os.path.join(self.work, "go.mod"), "-o", binp, "./cmd/consts"], cwd=HARNESS, env=GOENV)
+        if r.returncode != 0:
+            self.obligations.append(("source-facts:extractor-build", False, r.stdout[-300:]))
+            return False
+        r = subprocess.run([binp, REPO], stdout=subprocess.PIPE, stderr=subprocess.PIPE, text=True)
+        try:
+            got = json.loads(r.stdout)
+        except Exception:
+            got = {}
+        bad = []
+        for k, v in sorted(exp.items()):
+            ok = got.get(k) == v
+            self.obligations.append(("source-fact %s = %s" % (k, v), ok, "source now says %s" % got.get(k, "<absent>")))
+            if not ok:
+                bad.append("%s: model written against %s, source now says %s" % (k, v, got.get(k, "<absent>")))
+        if bad:
+            p = self.write_replay("sourcefacts", "# obligation: source facts the %s model depends on no longer hold\n" % self.id + "".join("# %s\n" % b for b in bad))
+            self.violations.append((p, "no-failing-input-found"))
+        return not bad
+
     def leanchecker(self):
         r = run(["lake", "env", "leanchecker", self.P.PROPS_MODULE], cwd=LEAN)
         ok = r.returncode == 0
@@ -425,6 +453,7 @@ class Check:
         ok = self.build_lean() and ok
         if ok:
             self.audit()
+            self.source_facts()
             if self.tier == "thorough":
                 self.leanchecker()
         pre = getattr(P, "pre_check", None)
@@ -516,7 +545,8 @@ class Check:
             f.write("\n")
         for l in self.known_hits:
             print(l)
-        for p, suffix in self.violations:
+        concrete = [v for v in self.violations if not v[1]]
+        for p, suffix in (concrete or self.violations):
             print(("VIOLATION property=%s replay=%s %s" % (self.id, p, suffix)).rstrip())
         print("%s %s seed=%d: obligations %d/%d, scenarios %d (%d non-trivial), op lines %d, %.1fs -> %s" % (
             self.id, self.tier, self.seed, n_ok, n_obl, self.n_scen, len(self.nontrivial_hashes), self.n_eval, wall,
